@@ -143,6 +143,9 @@ def make_trivia(r: random.Random, cls: str, tag: str, indent: int):
         return " " + _block_comment(r, tag) + " " + _block_comment(r, tag + "x") + " ", 2
     if cls == "eol_line_then_block":
         # `tok # c` then `/* d */ next` on the following line: the block comment shares the line of the next token
+        if r.random() < 0.5:
+            # two line comments first (the second on a line of its own)
+            return " " + _line_comment(r, tag) + "\n" + ind + _line_comment(r, tag + "y") + "\n" + ind + _block_comment(r, tag + "x") + " ", 3
         return " " + _line_comment(r, tag) + "\n" + ind + _block_comment(r, tag + "x") + " ", 2
     if cls == "mid_block_then_line":
         return " " + _block_comment(r, tag) + " " + _line_comment(r, tag + "x") + "\n" + ind, 2
@@ -250,7 +253,12 @@ class Injector:
         taken = []
         n = 0
         src = tree.src
-        for g in sorted(chosen, key=lambda g: g.index):
+        order = sorted(chosen, key=lambda g: g.index)
+        if self.one_comment_per_construct and len(order) > 1:
+            # under finding F24 only one of several neighbouring gaps may carry a comment: let every gap be that one
+            # equally often instead of always the leftmost
+            r.shuffle(order)
+        for g in order:
             lab = label_str(g.label)
             cls = None
             for _ in range(6):
@@ -280,6 +288,7 @@ class Injector:
             perts.append(Perturbation(g.index, g.label, cls, txt, nc))
             taken.append((perts[-1], g.lca_id))
             n += nc if nc else 0
+        perts.sort(key=lambda p: p.gap_index)
         return gaps, perts
 
 
